@@ -53,6 +53,20 @@ def operand(ga, cls, pre, positive=True):
 
 
 def _goal_same_as_functional(ga, p, res, left_cls, expected_dec):
+    if left_cls in ('DMSAngle', 'DDMAngle'):
+        # sexagesimal results are judged by what they denote (exact in the R-model), not against dec2dms / dec2ddm themselves: class,
+        # non-negative fields, sign in the flag (the flag of a zero angle carries no sign), value = the decimal-degree result
+        if type(res).__name__ != left_cls:
+            return [], z3.BoolVal(False)
+        e = toz(expected_dec)
+        val = toz(res.degree) + toz(res.minute) / 60 + (toz(res.second) / 3600 if left_cls == 'DMSAngle' else 0)
+        nonneg = z3.And(toz(res.degree) >= 0, toz(res.minute) >= 0, (toz(res.second) >= 0) if left_cls == 'DMSAngle' else z3.BoolVal(True))
+        signed = val if res.positive else -val
+        tol = ratval(Fraction(1, 10 ** 8) / 3600)
+        # (within the property's 1e-8 arc-seconds: an implementation that carries seconds rounding to 60 is as good as the exact one;
+        #  the flag of an angle that small carries no sign either)
+        flag_ok = z3.Or(ob.zabs(e) <= tol, z3.BoolVal(bool(res.positive)) == (e > 0))
+        return [], z3.And(nonneg, ob.zabs(signed - e) <= tol, flag_ok)
     with ref_ctx(p) as rc:
         exp = functional(ga, left_cls, expected_dec)
     return rc.extra, same(res, exp)
@@ -90,9 +104,9 @@ def g_binary(tier, seed):
                         a, b, r = p.value
                         with ref_ctx(p) as rc:
                             ed = op(a.dec(), b.dec())
-                            exp = functional(ga, lc, ed)
+                        ex2, goal = _goal_same_as_functional(ga, p, r, lc, ed)
                         _decide(out, p, 'O1', '%s: class of the left operand, value = functional conversion of left.dec() %s right.dec()' % (tag, on),
-                                same(r, exp), 'O1:%s:%s' % (lc, {'+': 'add', '-': 'sub'}[on]), rc.extra)
+                                goal, 'O1:%s:%s' % (lc, {'+': 'add', '-': 'sub'}[on]), list(rc.extra) + list(ex2))
     return out
 
 
@@ -128,12 +142,13 @@ def g_scalar(tier, seed):
                 a, k, res = p.value
                 with ref_ctx(p) as rc:
                     d = a.dec()
-                    exp = {'mul': functional(ga, lc, d * k), 'rmul': functional(ga, lc, k * d), 'div': functional(ga, lc, d / k)}
+                    eds = {'mul': d * k, 'rmul': k * d, 'div': d / k}
                     if 'mod' in res:
-                        exp['mod'] = functional(ga, lc, d % res['modv'])
-                for on in exp:
-                    _decide(out, p, 'O1', '%s%s %s number = functional conversion of the decimal-degree result' % (lc, sg, on), same(res[on], exp[on]),
-                            'O1:%s:%s' % (lc, on), rc.extra)
+                        eds['mod'] = d % res['modv']
+                for on in eds:
+                    ex2, goal = _goal_same_as_functional(ga, p, res[on], lc, eds[on])
+                    _decide(out, p, 'O1', '%s%s %s number = functional conversion of the decimal-degree result' % (lc, sg, on), goal,
+                            'O1:%s:%s' % (lc, on), list(rc.extra) + list(ex2))
                 # negation and absolute value: same class, decimal value negated / absolute
                 with ref_ctx(p) as rc2:
                     nd, ad, d0 = res['neg'].dec(), res['abs'].dec(), a.dec()
